@@ -46,10 +46,11 @@ type runResult struct {
 	Trace      []string         `json:"trace"`
 	Tape       []uint64         `json:"tape"`
 	// summary line
-	Aborted bool     `json:"aborted"`
-	Runs    int      `json:"runs"`
-	Pairs   []uint32 `json:"pairs"`
-	Sites   []int    `json:"sites"`
+	Aborted  bool     `json:"aborted"`
+	Leftover bool     `json:"leftover"`
+	Runs     int      `json:"runs"`
+	Pairs    []uint32 `json:"pairs"`
+	Sites    []int    `json:"sites"`
 }
 
 type finding struct {
@@ -466,6 +467,7 @@ func runWorker(a *agg, from uint64, count int, timeout time.Duration) error {
 	sc.Buffer(make([]byte, 1<<20), 1<<28)
 	got := 0
 	aborted := false
+	leftover := false
 	var lastSeed uint64
 	for sc.Scan() {
 		var r runResult
@@ -477,6 +479,7 @@ func runWorker(a *agg, from uint64, count int, timeout time.Duration) error {
 			lastSeed = r.Seed
 		} else if r.Aborted {
 			aborted = true
+			leftover = r.Leftover
 		}
 		a.addRun(&r)
 	}
@@ -491,6 +494,11 @@ func runWorker(a *agg, from uint64, count int, timeout time.Duration) error {
 		a.batchRaces = append(a.batchRaces, rc)
 	}
 	a.mu.Unlock()
+	if werr == nil && aborted && leftover && got > 0 && got < count {
+		// the worker ended because goroutines of the library were left
+		// behind: the remaining seeds run in a new process
+		return runWorker(a, from+uint64(got), count-got, timeout)
+	}
 	if werr != nil || (got != count && !aborted) {
 		return fmt.Errorf("worker for seeds %d..%d failed (%v, %d/%d runs); stderr tail: %s", from, from+uint64(count)-1, werr, got, count, tail(stderr.String(), 1500))
 	}
